@@ -87,4 +87,65 @@ def eventsBetween (chain : List MBlock) (lo hi : Nat) : Nat :=
 def consistent (chain : List MBlock) (start c : Cursor) : Bool :=
   c.lastChecked ≥ start.lastChecked && c.nextEvent == start.nextEvent + eventsBetween chain start.lastChecked c.lastChecked
 
+/-! ### The live loop: `relayMinterEvents` (cmd/mhub-minter-connector/main.go) -/
+
+/-- A claim handed to the tx committer. -/
+inductive Claim where
+  | deposit (eventNonce height : Nat)
+  | batch (eventNonce batchNonce height : Nat)
+  | valset (eventNonce valsetNonce height : Nat)
+  deriving Repr, BEq, DecidableEq
+
+def Claim.nonce : Claim → Nat
+  | .deposit n _ => n
+  | .batch n _ _ => n
+  | .valset n _ _ => n
+
+def Claim.height : Claim → Nat
+  | .deposit _ h => h
+  | .batch _ _ h => h
+  | .valset _ _ h => h
+
+structure RelaySt where
+  cur : Cursor
+  claims : List Claim        -- in the order they are found (= event-nonce order)
+  commits : List Cursor
+
+/-- One transaction of the relay loop in block `height`. -/
+def relayTx (height : Nat) (s : RelaySt) : MTx → RelaySt
+  | .send toM jsonOk valid =>
+    if toM && jsonOk && valid then
+      { s with claims := s.claims ++ [.deposit s.cur.nextEvent height],
+               cur := { s.cur with nextEvent := s.cur.nextEvent + 1 } }
+    else s
+  | .multisend fromM =>
+    if fromM then
+      { s with claims := s.claims ++ [.batch s.cur.nextEvent s.cur.nextBatch height],
+               cur := { s.cur with nextEvent := s.cur.nextEvent + 1, nextBatch := s.cur.nextBatch + 1 } }
+    else s
+  | .editMultisig fromM (some n) =>
+    if fromM then
+      { s with claims := s.claims ++ [.valset s.cur.nextEvent n height],
+               cur := { s.cur with nextEvent := s.cur.nextEvent + 1, lastValset := n } }
+    else s
+  | _ => s
+
+/-- One block: the cursor moves to the block, its transactions are examined, and the status file is
+    written only while no claim of this round is waiting to be sent. -/
+def relayBlock (s : RelaySt) (b : MBlock) : RelaySt :=
+  let s1 := { s with cur := { s.cur with lastChecked := b.height } }
+  let s2 := b.txs.foldl (relayTx b.height) s1
+  if s2.claims.isEmpty then { s2 with commits := s2.commits ++ [s2.cur] } else s2
+
+/-- The highest block one round looks at: at most 100 above the cursor. -/
+def relayLimit (start : Cursor) (latest : Nat) : Nat :=
+  if latest - start.lastChecked > 100 then start.lastChecked + 100 else latest
+
+/-- `relayMinterEvents`: one round from the cursor `start` with the node at height `latest`. -/
+def relay (start : Cursor) (chain : List MBlock) (latest : Nat) : RelaySt :=
+  let hi := relayLimit start latest
+  let s := (chain.filter fun b => start.lastChecked < b.height && b.height ≤ hi).foldl relayBlock
+    { cur := start, claims := [], commits := [] }
+  if s.claims.isEmpty then s else { s with commits := s.commits ++ [s.cur] }
+
 end Mhub2
